@@ -92,6 +92,38 @@ func (vt *v2T) scenC02() {
 		vt.match(c, x, v2MatchOpts{scored: true})
 		vt.reset(false)
 	}
+	// a corpus whose dictionary is larger than 0xD800 words: token ids travel through go-diff as runes, and ids in the
+	// surrogate range do not survive string([]rune)
+	{
+		big := NewClassifier(0.8)
+		bc := &v2C{"c02big", big, 0.8}
+		vt.emit(map[string]interface{}{"ev": "new", "c": bc.id})
+		var sb strings.Builder
+		for i := 0; i < 56000; i++ {
+			fmt.Fprintf(&sb, "w%c%c%c%c ", 'a'+i%26, 'a'+(i/26)%26, 'a'+(i/676)%26, 'a'+(i/17576)%26)
+			if i%12 == 11 {
+				sb.WriteByte('\n')
+			}
+		}
+		vt.add(bc, v2Doc{Key: "License/Filler/license.txt", Cat: "License", Name: "Filler", Variant: "license.txt", Data: []byte(sb.String())})
+		hi := func(tag string, n int) []string {
+			var ws []string
+			for i := 0; i < n; i++ {
+				ws = append(ws, fmt.Sprintf("hi%s%c%c", tag, 'a'+i%26, 'a'+i/26))
+			}
+			return ws
+		}
+		xw, yw := hi("x", 40), hi("y", 40)
+		vt.add(bc, v2Doc{Key: "License/HighX/license.txt", Cat: "License", Name: "HighX", Variant: "license.txt", Data: []byte(strings.Join(xw, " ") + "\n")})
+		vt.add(bc, v2Doc{Key: "License/HighY/license.txt", Cat: "License", Name: "HighY", Variant: "license.txt", Data: []byte(strings.Join(yw, " ") + "\n")})
+		for _, k := range []int{5, 20, 33} {
+			in := append([]string(nil), xw...)
+			in[k] = yw[k] // one word replaced by another dictionary word with a high id
+			vt.match(bc, []byte("zzqxv qqzzk\n"+strings.Join(in, " ")+"\nxqzvv\n"), v2MatchOpts{scored: true})
+		}
+		vt.match(bc, []byte("zzqxv qqzzk\n"+strings.Join(xw, " ")+"\nxqzvv\n"), v2MatchOpts{scored: true})
+		vt.reset(false)
+	}
 }
 
 // ---------------------------------------------------------------------------------------------
